@@ -49,11 +49,16 @@ var zzvC10Classes = []struct {
 }{
 	{"1B", 1, ""}, {"16B", 16, "n"}, {"17B", 17, "n"}, {"48B", 48, "n"}, {"4079B", 4079, "n"}, {"4080B", 4080, "n"}, {"4096B", 4096, "n"},
 	{"bytes", 24, "\x00\n\xff"},
+	{"0B", 0, ""},       // outside the format's name range: must be refused, leaving the file conformant
+	{"4097B", 4097, "n"}, // likewise
 }
 
 // zzvC10Name returns the seq-th distinct name of a class.
 func zzvC10Name(class, seq int) string {
 	c := zzvC10Classes[class]
+	if c.n == 0 {
+		return ""
+	}
 	if c.n == 1 {
 		return string(rune('a' + seq%26))
 	}
@@ -99,6 +104,9 @@ func zzvC10Build(base string, hist []zzvC10Op) (data []byte, m *zzvC10Model, err
 	add := func(f *file, name string, n uint64) {
 		c := &Counter{name: name, file: f}
 		c.Add(int64(n))
+		if len(name) == 0 || len(name) > 4096 {
+			return // not representable in the format: the count stays in memory
+		}
 		if x := zzvExtra(c); x != 0 {
 			errs = append(errs, fmt.Sprintf("increment of %q stayed pending (%d) although the file is open", zzvShort(name), x))
 		}
@@ -106,8 +114,15 @@ func zzvC10Build(base string, hist []zzvC10Op) (data []byte, m *zzvC10Model, err
 	newName := func(class int) string {
 		n := zzvC10Name(class, m.seq[class])
 		m.seq[class]++
-		m.names = append(m.names, n)
+		if len(n) >= 1 && len(n) <= 4096 {
+			m.names = append(m.names, n)
+		}
 		return n
+	}
+	bump := func(n string, v uint64) {
+		if len(n) >= 1 && len(n) <= 4096 {
+			m.values[n] += v
+		}
 	}
 	for _, op := range hist {
 		switch op.kind {
@@ -118,7 +133,7 @@ func zzvC10Build(base string, hist []zzvC10Op) (data []byte, m *zzvC10Model, err
 			}
 			n := newName(op.class)
 			add(f, n, 1)
-			m.values[n]++
+			bump(n, 1)
 			closef(f)
 		case "inc":
 			if op.k >= len(m.names) {
@@ -141,8 +156,8 @@ func zzvC10Build(base string, hist []zzvC10Op) (data []byte, m *zzvC10Model, err
 			add(fa, na, 1)
 			add(fb, nb, 2) // fb's mapping predates fa's write (and possibly fa's extension)
 			add(fa, nb, 4) // and fa must find fb's record
-			m.values[na]++
-			m.values[nb] += 6
+			bump(na, 1)
+			bump(nb, 6)
 			closef(fa)
 			closef(fb)
 		}
@@ -167,6 +182,9 @@ func zzvC10RefBytes(meta string, hist []zzvC10Op) []byte {
 		case "new":
 			n := zzvC10Name(op.class, seq[op.class])
 			seq[op.class]++
+			if len(n) == 0 || len(n) > 4096 {
+				continue
+			}
 			names = append(names, n)
 			w.Add(n, 1)
 		case "inc":
